@@ -362,7 +362,7 @@ func rulePlayLoop(c *Ctx) {
 	if !c.playPipelineChecked {
 		c.playPipelineChecked = true
 		for _, n := range []int{1, 2, 3} {
-			if problem, ops, ok := c.playPipelineByFolding(n); ok {
+			if problem, ops, ok := c.playPipelineVerdict(n); ok {
 				c.site(1)
 				c.check(problem == "", fmt.Sprintf("play|pipeline|tracks=%d", n), c.pos(fn.Pos()), fname(fn), fmt.Sprintf("a piece of ten instances folded from writeToPlay to the tracks: %d ops on %d track(s), each at its tick, on its track, with its pitch, velocity and contents", ops, n), "a piece of ten instances, folded from cmd.writeCmdArgs.writeToPlay to the ops in the tracks: "+problem)
 			}
